@@ -119,4 +119,16 @@ func init() {
 			{ID: "R07.3", Title: "declared arity covers every stack slot the implementation reads", Floor: 121, Run: ruleR073},
 		},
 	})
+	register(&Property{
+		ID:        "C08",
+		Technique: "construction-site purity check of lazy stages (no consuming method, no closure call outside the producer; consuming methods derived from the source), early-exit check of short-circuit consumers on CFG guards, stop-propagation check of every producer literal (repository and iterator dependency), per-iteration state check of stage producers",
+		Explanation: "Decides the structural side of laziness: building a lazy stage iterates nothing and calls no closure; first/single/present/indexWhere/~ leave their loop over the producer as soon as the result is decided; every producer (in the repository and in the iterator dependency) returns when the consumer answers false, or ignores the answer only for its last element; " +
+			"stage producers keep all state they modify per iteration. Not decided: demand counts, the read-ahead width, errors behind the decisive element in parallel mode.",
+		Rules: []*Rule{
+			{ID: "R08.1", Title: "stage constructors do not consume: no list iteration and no closure call outside the returned producer", Floor: 21, Run: ruleR081},
+			{ID: "R08.2", Title: "short circuit consumers return inside the loop over the producer", Floor: 5, Run: ruleR082},
+			{ID: "R08.3", Title: "stop is propagated: no producer calls the consumer again after it answered false", Floor: 47, Run: ruleR083},
+			{ID: "R10.1b", Title: "stage producers modify only state created inside the producer (per iteration)", Floor: 23, Run: ruleR101stages},
+		},
+	})
 }
